@@ -243,7 +243,11 @@ impl<'a> Exec<'a> {
             }
             self.probes.push(c);
         }
-        let cap = if matches!(self.cfg.view, View::Recursive { .. }) { 36 } else { 96 };
+        let cap = match self.cfg.view {
+            View::Recursive { r } if r >= 256 => 8,
+            View::Recursive { .. } => 36,
+            _ => 96,
+        };
         while self.probes.len() > cap {
             self.probes.remove(4);
         }
